@@ -257,8 +257,9 @@ def rule_dvalue(program, ctx):
     none_sites_ok = True
     for s in stores_of(fn, dvar):
         if isinstance(s, ast.Assign) and isinstance(s.value, ast.Constant) and s.value.value is None:
-            par = s._parent
-            inside_else = isinstance(par, ast.If) and "is_paramaterized_replaceable" in ast.unparse(par.test) and s in par.orelse and not isinstance(par.test, ast.UnaryOp)
+            from ..lib import guard_atoms
+            atoms = guard_atoms(s, stop=fn)
+            inside_else = any("is_paramaterized_replaceable" in ast.unparse(e) and not pol and not isinstance(e, ast.BoolOp) for e, pol in atoms)
             if not inside_else:
                 none_sites_ok = False
                 ctx.bad(finding_at(P, rid, s, f"`{dvar} = None` for a parameterized-replaceable event (absent or bare d tag): None means 'no d filter', so every older event of that "
